@@ -1,5 +1,6 @@
 """C11 — polyhedron reduction preserves the integer solution set."""
 from mats import *
+from core import time_limit, CallTimeout
 
 RULE = ("seeded random integer matrices as for C12 (incl. infeasible systems, all columns forced, no rows left); "
         "reducable_rows, reducable_columns_approx, reducable_rows_and_columns and reduce(rows, cols) compared with the model "
@@ -16,12 +17,21 @@ def do_case(ctx, inp):
     nc = len(p["bnds"])
     ids = [f"x{j}" for j in range(nc)]
     g = real_poly(p, ids)
-    rr = [int(bool(v)) for v in np.asarray(g.reducable_rows()).tolist()]
-    rc = nan_list(g.reducable_columns_approx())
-    frows, fcols = g.reducable_rows_and_columns()
-    frows_l = [int(v) for v in np.asarray(frows).tolist()]
-    fcols_l = nan_list(fcols)
-    R = g.reduce(frows, fcols)
+    if ctx.tags["call-did-not-return"] >= 3:
+        ctx.skip("not run: three earlier calls did not return"); return
+    try:
+        with time_limit(5):
+            rr = [int(bool(v)) for v in np.asarray(g.reducable_rows()).tolist()]
+            rc = nan_list(g.reducable_columns_approx())
+            frows, fcols = g.reducable_rows_and_columns()
+            frows_l = [int(v) for v in np.asarray(frows).tolist()]
+            fcols_l = nan_list(fcols)
+            R = g.reduce(frows, fcols)
+    except CallTimeout as e:
+        # the fixpoint loop of reducable_rows_and_columns terminates on every input (theorem C11.loop_inv is stated for any
+        # fuel; the model's loop needs at most rows+cols+1 rounds): not returning is a failure of the reduction
+        ctx.case(inp, True, {"call-did-not-return"})
+        ctx.fail("reduction-does-not-terminate", {"detail": str(e)}); return
     Rs = snap_poly(R)
     tg = set()
     if any(rr): tg.add("reducible-row")
